@@ -38,6 +38,8 @@ def cases(tier, seed):
     for t in tabs:
         for model in ("linear", "tree"):
             yield {"kind": "cor", "cols": t, "model": model, "draws": 1, "tier": tier}
+    for t in tabs[::3]:
+        yield {"kind": "cor", "cols": t, "model": "accum", "draws": 1, "tier": tier}
     for t in tabs[::max(1, len(tabs) // bounds(tier)["draws2_tables"])][:bounds(tier)["draws2_tables"]]:
         yield {"kind": "cor", "cols": t, "model": "linear", "draws": 2, "tier": tier}
     yield {"kind": "conformance"}
@@ -48,9 +50,32 @@ def cases(tier, seed):
         yield {"kind": "r2", "ys": [list(v) for v in ys[i:i + 8]], "n": n}
 
 
+_ACC = []
+
+
 def _model(name):
     from sklearn.linear_model import LinearRegression
     from sklearn.tree import DecisionTreeRegressor
+    if name == "accum":
+        # a user estimator that keeps state between fits of the SAME object (like warm_start / partial-fit learners): it learns from
+        # everything that object has been fitted on. A fresh clone per coefficient makes it an ordinary linear regression.
+        if not _ACC:
+            import numpy
+            from sklearn.base import BaseEstimator, RegressorMixin
+
+            class AccumulatingLinear(BaseEstimator, RegressorMixin):
+                def fit(self, X, y, sample_weight=None):
+                    X, y = numpy.asarray(X, dtype=float), numpy.asarray(y, dtype=float).ravel()
+                    if hasattr(self, "X_seen_"):
+                        X, y = numpy.vstack([self.X_seen_, X]), numpy.concatenate([self.y_seen_, y])
+                    self.X_seen_, self.y_seen_ = X, y
+                    self.lr_ = LinearRegression().fit(X, y)
+                    return self
+
+                def predict(self, X):
+                    return self.lr_.predict(numpy.asarray(X, dtype=float))
+            _ACC.append(AccumulatingLinear)
+        return _ACC[0]()
     return LinearRegression() if name == "linear" else DecisionTreeRegressor(max_depth=2, random_state=0)
 
 
@@ -144,7 +169,14 @@ def _cor(case, bad):
                             bad("frame result does not keep the labels", cond, desc)
                             break
                 res[kind] = mats
-                if case["model"] == "linear" and has_seam:
+                if case["model"] == "accum" and kind == "array" and has_seam:
+                    # one fresh model per coefficient: the stateful learner must give what the stateless one gives
+                    mod.train_test_split = _Scripted(sc)
+                    refm = numpy.asarray(non_linear_correlations(data, _model("linear"), draws=case["draws"]), dtype=float)
+                    if not numpy.allclose(refm, mats[0], rtol=0, atol=1e-9):
+                        bad("coefficients of a stateful model differ from those of one fresh model per coefficient", cond,
+                            "%r vs %r %s" % (mats[0].tolist(), refm.tolist(), desc))
+                if case["model"] in ("linear", "accum") and has_seam:
                     for i, c in enumerate(cols):
                         col = numpy.array(COLS[c])
                         learnable = all(len(set(col[tr].tolist())) > 1 for tr in sc) or len(set(col.tolist())) == 1
